@@ -21,6 +21,7 @@ From PTK Require Import Lib.Sx Lib.Py Lib.C07_Lemmas Model.C07_Undo Model.C07_Ke
 From PTK Require Import Model.Document Model.BufferEdit.
 From PTK Require Model.C09_Kill.
 From PTK Require Import Proofs.C07_Payloads Proofs.C07_KeyHistFacts.
+From PTK Require Import Model.C07_Multi Model.C07_Edit Proofs.C07_MultiFacts Proofs.C07_RoundTrip Proofs.C07_EditFacts.
 Import ListNotations.
 Open Scope Z_scope.
 
@@ -470,6 +471,202 @@ Theorem C07_redo_inverts_undo_key : forall tbl s h n nav,
 Proof. exact redo_inverts_undo_key. Qed.
 Print Assumptions C07_redo_inverts_undo_key.
 
+(* ---- several buffers, focus changes, changes from outside (round 6) ---- *)
+
+(* Model/C07_Multi.v: a family of buffers, ONE key processor (one "previous
+   handler"), the snapshot taken on the buffer focused at dispatch time,
+   handlers that edit / reset any buffer and move the focus, Layout.focus by
+   application code, text changes outside a dispatch (asynchronous completion).
+   Whatever such a session does, every single buffer sees a buffer-level
+   operation list ([mproj_all]) - so every buffer-level theorem above
+   (C07_stack_is_history, C07_redo_inverts_undo, C07_no_assert, ...) holds for
+   each buffer of an application. *)
+Theorem C07_multi_buffer_is_op_list : forall tbl evs s i,
+  mbufs (mrun tbl s evs) i = urun (mbufs s i) (mproj_all tbl i s evs).
+Proof. exact mrun_proj. Qed.
+Print Assumptions C07_multi_buffer_is_op_list.
+
+(* Per buffer, over a history with ONE entry per command (a dispatch wherever
+   the focus was, a direct redo(), a change from outside; restarted when the
+   buffer is reset), real table: the undo stack is a chronological subsequence
+   of the states THAT buffer had when earlier commands began; redo entries are
+   such states. *)
+Theorem C07_multi_stack_is_history : forall l foc evs i,
+  Forall doc_ok l -> Forall mev_ok evs ->
+  let g := mgrun c07_rows (mfresh l foc) evs in
+  subseq (ustack (mbufs (fst g) i)) (snd g i) /\ incl (rstack (mbufs (fst g) i)) (snd g i).
+Proof. exact (fun l foc evs i => multi_stack_is_history c07_rows l foc evs i live_no_redo_handler). Qed.
+Print Assumptions C07_multi_stack_is_history.
+
+Theorem C07_multi_undo_lands_in_history : forall l foc evs i,
+  Forall doc_ok l -> Forall mev_ok evs ->
+  let g := mgrun c07_rows (mfresh l foc) evs in
+  let s := mbufs (fst g) i in
+  let past := snd g i in
+  (utext (undo s) = utext s /\ ucur (undo s) = ucur s /\ ustack (undo s) = [] /\
+   rstack (undo s) = rstack s /\ forall e, In e (ustack s) -> fst e = utext s)
+  \/
+  (exists newer older,
+     past = newer ++ here (undo s) :: older /\
+     utext (undo s) <> utext s /\
+     subseq (ustack (undo s)) older /\
+     rstack (undo s) = here s :: rstack s).
+Proof. exact (fun l foc evs i => multi_undo_lands_in_history c07_rows l foc evs i live_no_redo_handler). Qed.
+Print Assumptions C07_multi_undo_lands_in_history.
+
+(* Grouping with several buffers: a maximal run of one if_no_repeat binding
+   typed into the focused buffer - whatever its handlers do to ANY buffer
+   (short of resetting the focused one), with terminal reports and changes
+   from outside (completion insertions) in between - takes one snapshot of
+   that buffer; one undo there restores its pre-run text and cursor. *)
+Theorem C07_multi_group : forall tbl h s n effs evs,
+  r_cls (lookup tbl h) = 2 -> r_act (lookup tbl h) = 0 -> mprev s <> Some h ->
+  existsb (resets (mfoc s)) effs = false -> Forall (in_mrun h (mfoc s)) evs -> wf (mbufs s (mfoc s)) ->
+  let f := mfoc s in
+  let s' := mrun tbl s (MKey h n effs f :: evs) in
+  utext (mbufs s' f) <> utext (mbufs s f) ->
+  here (undo (mbufs s' f)) = here (mbufs s f) /\ rstack (undo (mbufs s' f)) = [here (mbufs s' f)].
+Proof. exact multi_group. Qed.
+Print Assumptions C07_multi_group.
+
+(* A focus change made by a DISPATCH (start_search, accept_search, focus_next,
+   a mouse click) resets is_repeat: the next key of any other snapshotting
+   binding snapshots the newly focused buffer. *)
+Theorem C07_focus_by_dispatch_snapshots : forall tbl s h' n' effs foc' h n effs2 foc2,
+  h' <> h -> r_cls (lookup tbl h) <> 0 -> r_act (lookup tbl h) = 0 ->
+  existsb (resets foc') effs2 = false ->
+  let s1 := mstep tbl s (MKey h' n' effs foc') in
+  let s2 := mstep tbl s1 (MKey h n effs2 foc2) in
+  ustack (mbufs s2 foc') = ustack (save_to_undo_stack (mbufs s1 foc') true) /\
+  ustack (mbufs s2 foc') <> [].
+Proof. exact focus_by_dispatch_snapshots. Qed.
+Print Assumptions C07_focus_by_dispatch_snapshots.
+
+(* Repeated undo in ANY buffer ends on the text that buffer started with (or
+   was last reset to), for every DISCIPLINED session ([disciplined],
+   Model/C07_Multi.v): plain handlers behind snapshotting bindings, undo keys
+   as modelled, if_no_repeat handlers that neither move the focus nor reset
+   their buffer, effects and outside changes that alter a text only where a
+   snapshot exists, and application code moving the focus only when the
+   previous dispatch was not an if_no_repeat binding (or the target has a
+   snapshot). *)
+Theorem C07_multi_reaches_start : forall tbl l foc evs i k,
+  Forall doc_ok l -> Forall mev_ok evs -> all_disciplined tbl (mfresh l foc) evs ->
+  let b := mbufs (mrun tbl (mfresh l foc) evs) i in
+  (length (ustack b) <= k)%nat ->
+  utext (iter_op Undo k b) = session_start (utext (mk_bufs l i)) (mproj_all tbl i (mfresh l foc) evs).
+Proof. exact multi_reaches_start. Qed.
+Print Assumptions C07_multi_reaches_start.
+
+(* ... and the last clause of the discipline is needed (observation O4:
+   is_repeat is per key processor, not per buffer): type a character in buffer
+   0, let application code focus buffer 1, type again - buffer 1 gets no
+   snapshot and no number of undos restores its start text.  Model-level: not
+   reachable through keys alone (C07_focus_by_dispatch_snapshots). *)
+Theorem C07_programmatic_focus_refuted :
+  let s0 := mfresh [([65], 1); ([66], 1)] 0 in
+  let b := mbufs (mrun o4_tbl s0 o4_session) 1 in
+  Forall mev_ok o4_session /\
+  utext b = [66; 121] /\ ustack b = [] /\
+  (forall k, utext (iter_op Undo k b) <> utext (mbufs s0 1)).
+Proof. exact programmatic_focus_refuted. Qed.
+Print Assumptions C07_programmatic_focus_refuted.
+
+(* Binding identity is OBJECT identity: when a registry rebuilds its Binding
+   objects (ConditionalKeyBindings after a version change) the same row gets a
+   new identity, is_repeat is false at the switch and a run typed across the
+   rebuild is split into two undo groups.  (Model-level record; the bindings
+   of roles 1/2/3/6 of a default PromptSession are never rebuilt - the harness
+   checks per dispatch that each Binding object keeps its table position.) *)
+Theorem C07_rebuilt_binding_splits_group :
+  exists tbl h h' s evs,
+    lookup tbl h = lookup tbl h' /\ r_cls (lookup tbl h) = 2 /\ h <> h' /\ wf (kbuf s) /\
+    utext (kbuf (krun tbl s evs)) <> utext (kbuf s) /\
+    here (undo (kbuf (krun tbl s evs))) <> here (kbuf s).
+Proof. exact rebuilt_binding_splits_group. Qed.
+Print Assumptions C07_rebuilt_binding_splits_group.
+
+(* ---- undo / redo / undo round trips (round 6) ---- *)
+
+(* undo; the cursor moves without a snapshot; redo: text, cursor, redo stack
+   exactly as before the undo.  Undo again: the landing text with the cursor
+   as it was left there; redo again: exact once more. *)
+Theorem C07_undo_redo_cycle : forall s c',
+  wf s -> utext (undo s) <> utext s -> 0 <= c' <= len (utext (undo s)) ->
+  let u' := set_state (undo s) (utext (undo s)) c' in
+  let r := redo u' in
+  same_view r s /\
+  here (undo r) = (utext (undo s), c') /\
+  rstack (undo r) = here s :: rstack s /\
+  same_view (redo (undo r)) s.
+Proof. exact undo_redo_cycle. Qed.
+Print Assumptions C07_undo_redo_cycle.
+
+(* k times (undo; redo): no drift in text, cursor or redo stack *)
+Theorem C07_undo_redo_cycles : forall k s,
+  wf s -> utext (undo s) <> utext s -> same_view (cycle k s) s.
+Proof. exact undo_redo_cycles. Qed.
+Print Assumptions C07_undo_redo_cycles.
+
+(* A cursor KEY between undo and redo is a command behind a snapshotting
+   binding: it discards the redo history and redo() then does nothing
+   ("immediately after" in the property text is essential). *)
+Theorem C07_key_command_discards_redo : forall tbl s h n t c,
+  r_act (lookup tbl h) = 0 -> save_before tbl (kprev s) h = true ->
+  let s' := kstep tbl s (Key h n t c) in
+  rstack (kbuf s') = [] /\ redo (kbuf s') = kbuf s'.
+Proof. exact key_command_discards_redo. Qed.
+Print Assumptions C07_key_command_discards_redo.
+
+(* ---- editing sessions over COMPUTED texts (round 6) ---- *)
+
+(* Model/C07_Edit.v: a command names C01's model of its handler
+   (Model/BufferEdit.v: self-insert, backward-delete-char, delete-char,
+   backward-char, forward-char, any count) and the text is what that model
+   computes.  Such a session IS a key session ... *)
+Theorem C07_edit_session_is_key_session : forall tbl cs s,
+  erun tbl s cs = krun tbl s (ecompile tbl s cs).
+Proof. exact erun_is_krun. Qed.
+Print Assumptions C07_edit_session_is_key_session.
+
+(* ... undo lands on texts the edit model really computed earlier in the
+   session, in order ... *)
+Theorem C07_edit_undo_lands_on_computed_text : forall t0 c0 cs,
+  0 <= c0 <= len t0 ->
+  let s := kbuf (erun c07_rows (kfresh t0 c0) cs) in
+  let past := ehistory t0 c0 cs in
+  subseq (ustack s) past /\
+  ((utext (undo s) = utext s /\ ucur (undo s) = ucur s /\ ustack (undo s) = [])
+   \/
+   (exists newer older,
+      past = newer ++ here (undo s) :: older /\ utext (undo s) <> utext s /\
+      subseq (ustack (undo s)) older /\ rstack (undo s) = here s :: rstack s)).
+Proof. exact edit_undo_lands_on_computed_text. Qed.
+Print Assumptions C07_edit_undo_lands_on_computed_text.
+
+(* ... and repeated undo ends on the start text, with no hypothesis left. *)
+Theorem C07_edit_reaches_start : forall t0 c0 cs k,
+  0 <= c0 <= len t0 -> Forall (ecmd_valid c07_rows) cs ->
+  let s := kbuf (erun c07_rows (kfresh t0 c0) cs) in
+  (length (ustack s) <= k)%nat -> utext (iter_op Undo k s) = t0.
+Proof. exact edit_reaches_start. Qed.
+Print Assumptions C07_edit_reaches_start.
+
+(* A run of typed strings through the real <any> self-insert binding: the
+   buffer holds the old text with ALL of them inserted at the cursor; ONE undo
+   gives back the old text and cursor; redo gives the typed text and cursor
+   again, exactly. *)
+Theorem C07_typed_run_real_text : forall h s d ds,
+  r_role (lookup c07_rows h) = 1 -> kprev s <> Some h -> wf (kbuf s) -> concat (d :: ds) <> [] ->
+  let t := utext (kbuf s) in
+  let c := ucur (kbuf s) in
+  let s' := erun c07_rows s (map (EEdit h) (typed (d :: ds))) in
+  here (kbuf s') = (firstn (Z.to_nat c) t ++ concat (d :: ds) ++ skipn (Z.to_nat c) t, c + len (concat (d :: ds))) /\
+  here (undo (kbuf s')) = (t, c) /\
+  here (redo (undo (kbuf s'))) = here (kbuf s').
+Proof. exact typed_run_real_text. Qed.
+Print Assumptions C07_typed_run_real_text.
+
 (* Non-vacuity: a reachable state with two stacked snapshots and a redo entry
    is well-formed; the real table has every role. *)
 Example C07_hypotheses_satisfiable :
@@ -477,7 +674,8 @@ Example C07_hypotheses_satisfiable :
   all_effective (urun (fresh [97] 1) [Cmd true [97; 98] 2; Cmd true [97; 98; 99] 3; Cmd true [] 0]) 2 /\
   has_role c07_rows 1 = true /\ has_role c07_rows 2 = true /\ has_role c07_rows 3 = true /\
   has_role c07_rows 4 = true /\ has_role c07_rows 5 = true /\ has_role c07_rows 6 = true /\
-  has_role c07_rows 7 = true /\ has_role c07_rows 8 = true /\ has_role c07_rows 9 = true /\ has_role c07_rows 10 = true.
+  has_role c07_rows 7 = true /\ has_role c07_rows 8 = true /\ has_role c07_rows 9 = true /\ has_role c07_rows 10 = true /\
+  has_role c07_rows 11 = true /\ has_role c07_rows 12 = true.
 Proof.
   split; [apply wf_run; [apply wf_fresh; vm_compute; split; discriminate|
                          repeat constructor; vm_compute; discriminate]|].
